@@ -3,12 +3,14 @@ LEVEL = "proof"
 TITLE = "Message content survives byte-for-byte from SMTP DATA to every read interface"
 LEVEL_TEXT = ("Coq theorems over the transcribed net/textproto dot decoder: for every list of LF-free lines (NUL/8-bit bytes, leading dots, "
               "lone dots, bare CRs, any length) decoding the dot-stuffed wire gives exactly the lines joined by LF and stops at the "
-              "terminator (dot_lines, dot_roundtrip), a truncated block is never a message (truncated_is_none), and the POP3 line writer / "
+              "terminator (dot_lines, dot_roundtrip), what the stored copy is line by line (lf_norm_terminated_line: an LF-terminated line loses exactly one trailing CR "
+              "and nothing else; lf_norm_last_line; lf_norm_per_line), a truncated block is never a message (truncated_is_none), and the POP3 line writer / "
               "client decoder round-trips every source (pop3_roundtrip, built with C13); tied to the code by sending hostile bodies up to "
               "300 KB lines (MBs in the thorough tier) through a real SMTP session and reading them back through Store.Source, REST /source, "
               "web-UI /source and POP3 RETR on both real stores, sizes through Store.Size, the REST listing and POP3 LIST")
 LEVEL_NOTE = ("Coq kernel; extraction; the dotReader state machine is transcribed from Go's source (validated by the correspondence run, "
-              "not verified); the store copy, HTTP handlers and POP3 writer are covered by the differential run only; the Received "
+              "not verified); the store copy, the HTTP handlers, the trace-header prefix, size = length and the agreement of the interfaces are covered by the differential run only "
+              "(the POP3 line writer has theorems: pop3_roundtrip*); lf_norm is not idempotent (a line ending CR CR LF keeps one CR in the store and loses it at POP3's CR trim); the Received "
               "timestamp is masked; POP3 output is compared after CRLF->LF normalisation, which the property allows")
 DESIGN_REF = "DESIGN.md §4 C02"
 RULE = ("bodies from a grammar of hostile lines (leading/lone dots, NUL, 8-bit, bare CR at start/middle/end, empty lines, random bytes, "
